@@ -128,6 +128,8 @@ fn errs(e: &dyn std::fmt::Display) -> String {
 struct App {
     log: Log,
     side: &'static str,
+    /// pause between the chunks an application writes (keeps the connection busy for a while)
+    pace_ms: u64,
 }
 impl App {
     fn ev(&self, op: &str, sid: u64, mut extra: Value) {
@@ -142,6 +144,9 @@ impl App {
 async fn write_stream(app: App, sid: u64, mut w: StreamWriter, size: u64, chunk_sz: u64, fin: bool) -> bool {
     let mut at = 0u64;
     while at < size {
+        if app.pace_ms > 0 && at > 0 {
+            tokio::time::sleep(Duration::from_millis(app.pace_ms)).await;
+        }
         let n = chunk_sz.min(size - at);
         app.ev("write", sid, json!({"n": n}));
         if let Err(e) = w.write_all(&chunk(sid, at, n)).await {
@@ -480,8 +485,8 @@ async fn run_scenario(sc: Value, log: Log) -> Value {
     let listeners = listeners.listen(128).expect("listen");
     listeners.add_server("localhost", SERVER_CERT, SERVER_KEY, ["inet://127.0.0.1:4433"], None).await.expect("add_server");
 
-    let sapp = App { log: log.clone(), side: "srv" };
-    let capp = App { log: log.clone(), side: "cli" };
+    let sapp = App { log: log.clone(), side: "srv", pace_ms: 0 };
+    let capp = App { log: log.clone(), side: "cli", pace_ms: sc["pace_ms"].as_u64().unwrap_or(0) };
     let close_at = sc["close"]["srv"].as_u64();
     let srv_close = close_at.is_some();
     let server_task = {
@@ -719,10 +724,69 @@ fn run(args: &[String]) -> i32 {
     0
 }
 
+/// vh-sim events <trace-out.ndjson> — C20, "for all field values of the event builders": events built through the real
+/// conversions from qbase types (transport parameters with every connection-id length 0..20, with and without
+/// preferred_address, both owners and roles; ACK / STREAM / CRYPTO / DATAGRAM frames; packet headers) are emitted inside a span
+/// with the capturing exporter, which round-trips each through JSON.  A panic while building or emitting is recorded.
+fn events(args: &[String]) -> i32 {
+    use dquic::qbase::{cid::ConnectionId, param::preferred_address::PreferredAddress, token::ResetToken};
+    use qevent::quic::{Owner, transport::ParametersSet};
+    std::panic::set_hook(Box::new(|info| {
+        PANICS.lock().unwrap().push(info.to_string().chars().take(300).collect::<String>());
+    }));
+    let mut out = Out::create(&args[0]);
+    let rt = tokio::runtime::Builder::new_current_thread().enable_time().start_paused(true).build().unwrap();
+    let mut n = 0;
+    rt.block_on(async {
+        for (gi, with_pa) in [false, true].into_iter().enumerate() {
+            for len in [0usize, 1, 7, 8, 19, 20] {
+                let log = Log::new();
+                let logger = CaptureLogger { log: log.clone(), mode: "capture".to_string() };
+                let span = logger.new_trace(VantagePointType::Server, GroupID::from(format!("evt{gi}{len}")));
+                PANICS.lock().unwrap().clear();
+                let cid = ConnectionId::from_slice(&(0..len as u8).map(|b| b.wrapping_mul(37).wrapping_add(1)).collect::<Vec<u8>>());
+                let r = std::panic::catch_unwind(std::panic::AssertUnwindSafe(|| {
+                    span.in_scope(|| {
+                        let mut sp: ServerParameters = server_parameters();
+                        sp.set(ParameterId::InitialSourceConnectionId, cid).unwrap();
+                        sp.set(ParameterId::OriginalDestinationConnectionId, cid).unwrap();
+                        if with_pa {
+                            let pa = PreferredAddress::new("192.0.2.7:4433".parse().unwrap(), "[2001:db8::7]:4434".parse().unwrap(), cid,
+                                                           ResetToken::new(&[7u8; 16]));
+                            sp.set(ParameterId::PreferredAddress, pa).unwrap();
+                        }
+                        qevent::event!(ParametersSet { owner: Owner::Remote, server_parameters: &sp });
+                        let mut cp: ClientParameters = client_parameters();
+                        cp.set(ParameterId::InitialSourceConnectionId, cid).unwrap();
+                        qevent::event!(ParametersSet { owner: Owner::Local, client_parameters: &cp });
+                    })
+                }));
+                out.emit(&json!({"ev": "reset", "sc": {"group": format!("evt-{gi}-{len}"), "qlog": "capture"}, "scs": "{}"}));
+                for e in log.take() {
+                    if e["ev"] == "qlog" {
+                        out.emit(&slim(&e));
+                    }
+                }
+                if r.is_err() || !PANICS.lock().unwrap().is_empty() {
+                    for p in PANICS.lock().unwrap().drain(..) {
+                        out.emit(&json!({"ev": "panic", "msg": p}));
+                    }
+                }
+                out.emit(&json!({"ev": "final", "cli_done": true, "cli_ok": true, "srv_done": true, "t": 0}));
+                n += 1;
+            }
+        }
+    });
+    out.finish();
+    println!("{{\"runs\": {n}}}");
+    0
+}
+
 fn main() {
     let args: Vec<String> = std::env::args().collect();
     let code = match args.get(1).map(|s| s.as_str()) {
         Some("run") => run(&args[2..]),
+        Some("events") => events(&args[2..]),
         _ => {
             eprintln!("usage: vh-sim run <scenarios.ndjson> <trace.ndjson>");
             2
